@@ -13,7 +13,7 @@ def main():
     only = sys.argv[1:]
     P = front.load_program()
     src = open(os.path.join(front.VERIF, 'subjects', 'src', 'idioms.rs')).read()
-    tab = re.findall(r'(\d+) => ([ijkln]\d+_?)', src.split('table! {', 1)[-1])
+    tab = re.findall(r'(\d+) => ([ijklnp]\d+_?)', src.split('table! {', 1)[-1])
     L = ['scenario subj'] + [f'idiom {n} {a} {b}' for n, f in tab for a, b in INPUTS] + ['end']
     outs, err = replay.run_scenarios('\n'.join(L) + '\n', timeout=120)
     native = {}
@@ -32,7 +32,8 @@ def main():
             try:
                 outs_, st = explore(run, max_paths=8)
                 o = outs_[0]
-                if o.status != 'ok': got = o.status + ': ' + str(o.res)[:150]
+                if o.status == 'panic' and native.get((int(n), a, b)) == 'panic': got = 'panic'          # both sides panic on this input
+                elif o.status != 'ok': got = o.status + ': ' + str(o.res)[:150]
                 else:
                     v = o.res
                     if z3.is_expr(v): v = z3.simplify(v)
